@@ -16,7 +16,8 @@ FRAGMENT = {
                'listed in assumptions, clang sanitizers',
  'design_ref': 'DESIGN.md section 6 (C13)',
  'rule': 'one evaluation = one simulated run: 15-85 reception opportunities per carrier (6-30 XDS packets per source), a station script of 6-12 steps, '
-         '1-5 lines per vbi_decode() call with timestamps advancing 40 ms (33.4 ms for XDS), a third of the runs fault free; 60% strict 625-line runs, '
+         '1-5 lines per vbi_decode() call with timestamps advancing 40 ms (33.4 ms for XDS), a third of the runs fault free; XDS stations: 8 network names x own / '
+         'second affiliate / shared call letters or none, a third of the station switches go to an affiliate (same name, other call letters); 60% strict 625-line runs, '
          '15% 625-line runs with dropped frames (oracle relaxed to fidelity + debounce + memory safety after the first gap), 25% 525-line XDS runs; '
          'non-trivial = at least one accepted NETWORK event and at least 20 receptions; distinct = distinct event-log hash',
  'fault_kinds': ['fault_vps_cni', 'fault_8301_cni', 'fault_8302_cni', 'fault_vps_pil', 'fault_8302_pil', 'fault_8301_time', 'fault_drop',
@@ -32,9 +33,15 @@ FRAGMENT = {
                  'all stations transmit Teletext with the same header text (header based switch detection is another mechanism)',
                  'debounce is demanded for the carrier whose line raised the event; the other cni_* fields must equal the most recent reception there (or 0 after a blank event)',
                  'after a changed value on any carrier one repeated NETWORK_ID is accepted (shared confirmation counter)',
+                 'after a blank NETWORK event (station revoked, vbi_network all zero: the client holds 0 for every carrier) the first reception on EACH '
+                 'carrier counts as a changed value: its identifier is announced once more, this is not "announced again while the same value keeps arriving"',
                  'WSS: "several repeats" read as a reception and two identical repeats (no number is documented); anamorphic ratio any value != 1',
                  'VPS PROG_ID: label must have been received before, not necessarily consecutively; 8/30-2 PROG_ID and LOCAL_TIME: fidelity only',
                  'first identification and loss of identification (blank event): cache may or may not be cleared',
                  'XDS: a NETWORK event is accepted for every confirmed change of the (name, call) pair; a call packet in transmission across a decoder reset may be lost',
+                 'XDS change clause: station identity = network name + call letters; a NETWORK event is overdue when the name was received three times in a row '
+                 'unchanged since name or call letters last changed (the statement gives no deadline, "received again unchanged" would be two) and the call letters '
+                 'received last differ from the announced ones (or no call letters were ever received and the names differ); a new name under unchanged call '
+                 'letters is not decided',
                  'corrupted words never produce CNI 0 and never 0x0DC3 on 8/30-2; WSS subtitle code 11 (reserved) is not transmitted']}
 }
